@@ -54,19 +54,19 @@ def prepAll (n : Nat) (mask : Int) (a : List Col) : List Col :=
 def cnvNorm (big128 : Bool) (n resBase2k resSize base2k dftSize hi : Nat) (lo : Int) (x y : Col) : Option Col :=
   bigNormalizeOff big128 n resBase2k resSize lo (Hal.cnvApplyCol n dftSize hi x y) base2k
 
-def updCol (st : List Col) (c : Nat) (f : Col → Col) : List Col := st.set c (f (st.getD c []))
+def mulUpdCol (st : List Col) (c : Nat) (f : Col → Col) : List Col := st.set c (f (st.getD c []))
 
 /-- the diagonal loop of `glwe_tensor_apply` (`acc = false`) / `glwe_tensor_apply_add_assign` (`acc = true`) for one `i` -/
 def tensorDiagStep (acc : Bool) (n cols resSize : Nat) (tmp : Col) (st : List Col) (i : Nat) : List Col :=
   let colI := colIdx cols i 0
   let st :=
-    if acc then updCol st (colI + i) (fun r => vecAddAssignW w64 r tmp)
-    else updCol st (colI + i) (fun _ => vecCopy n resSize tmp)
+    if acc then mulUpdCol st (colI + i) (fun r => vecAddAssignW w64 r tmp)
+    else mulUpdCol st (colI + i) (fun _ => vecCopy n resSize tmp)
   (List.range cols).foldl (fun st j =>
     if j = i then st
-    else if j < i then updCol st (colIdx cols j 0 + i) (fun r => vecSubAssignW w64 r tmp)
-    else if acc then updCol st (colI + j) (fun r => vecSubAssignW w64 r tmp)
-    else updCol st (colI + j) (fun _ => vecNegate n resSize tmp)) st
+    else if j < i then mulUpdCol st (colIdx cols j 0 + i) (fun r => vecSubAssignW w64 r tmp)
+    else if acc then mulUpdCol st (colI + j) (fun r => vecSubAssignW w64 r tmp)
+    else mulUpdCol st (colI + j) (fun _ => vecNegate n resSize tmp)) st
 
 /-- **`glwe_tensor_apply`** / **`glwe_tensor_apply_add_assign`**: `res0` is the prior content of the
 tensor (`cols(cols+1)/2` columns of `resSize` limbs; only read by the accumulate form). -/
@@ -89,7 +89,7 @@ def tensorApply (acc big128 : Bool) (n resBase2k resSize cnvOffset base2k : Nat)
         st.bind (fun st =>
           (cnvNorm big128 n resBase2k resSize base2k dftSize hi lo
               (Hal.colAdd n (aP.getD i []) (aP.getD j [])) (Hal.colAdd n (bP.getD i []) (bP.getD j []))).map
-            (fun tmp => updCol st (colIdx cols i 0 + j) (fun r => vecAddAssignW w64 r tmp)))
+            (fun tmp => mulUpdCol st (colIdx cols i 0 + j) (fun r => vecAddAssignW w64 r tmp)))
       else st) st) st1
 
 /-- **`glwe_tensor_square_apply`** (`cnv_prepare_self`: both prepared vectors come from `a`) -/
@@ -105,7 +105,7 @@ def tensorSquare (big128 : Bool) (n resBase2k resSize cnvOffset base2k : Nat) (a
     cnvNorm big128 n resBase2k resSize base2k dftSize hi lo (aP.getD i []) (aP.getD i []))
   d.bind (fun diag =>
     let st0 := (List.range cols).foldl (fun st i =>
-      updCol st (colIdx cols i 0 + i) (fun _ => vecCopy n resSize (diag.getD i []))) res0
+      mulUpdCol st (colIdx cols i 0 + i) (fun _ => vecCopy n resSize (diag.getD i []))) res0
     (List.range cols).foldl (fun (st : Option (List Col)) i =>
       (List.range cols).foldl (fun (st : Option (List Col)) j =>
         if i < j then
@@ -113,9 +113,9 @@ def tensorSquare (big128 : Bool) (n resBase2k resSize cnvOffset base2k : Nat) (a
             (cnvNorm big128 n resBase2k resSize base2k dftSize hi lo
                 (Hal.colAdd n (aP.getD i []) (aP.getD j [])) (Hal.colAdd n (aP.getD i []) (aP.getD j []))).map
               (fun p =>
-                let st := updCol st (colIdx cols i 0 + j) (fun _ => p)
-                let st := updCol st (colIdx cols i 0 + j) (fun r => vecSubAssignW w64 r (diag.getD i []))
-                updCol st (colIdx cols i 0 + j) (fun r => vecSubAssignW w64 r (diag.getD j []))))
+                let st := mulUpdCol st (colIdx cols i 0 + j) (fun _ => p)
+                let st := mulUpdCol st (colIdx cols i 0 + j) (fun r => vecSubAssignW w64 r (diag.getD i []))
+                mulUpdCol st (colIdx cols i 0 + j) (fun r => vecSubAssignW w64 r (diag.getD j []))))
         else st) st) (some st0))
 
 /-- **`glwe_mul_plain`** (and `_assign` with `a = res`, `resBase2k = base2k`): `b` is the single
